@@ -66,3 +66,45 @@ CLAIMS['C03'] = dict(
     note="Level 'other': the relations themselves are bounded. np.random inside quaternion_from_two_vectors (antiparallel axes) is outside "
          "the proved part.",
     technique='contract-based deductive verification of hint normalisation and RNG independence (block contracts, z3) + bounded metamorphic relations')
+CLAIMS['C04'] = dict(
+    category='other',
+    text="Proved as block contracts on the real AST of replace_pattern_in_structure: the matches selected for replacement are "
+         "round(f*M) (ties to even; all M for f >= 1) pairwise distinct members of the found list, positions and rotations follow the same "
+         "selection, and the reported count is their number; the deletion-set algebra is C07's proof on the same statements; per-atom "
+         "order/data of survivors follow from the proved contract of __delitem__ (C10). The whole-function composition over the match loop "
+         "(atom and per-element counts, bystanders unchanged in order, retained atoms in place, inputs unmodified) is not assembled into one "
+         "proof and is only checked with a stated bound: 126 planted replacements quick (9 pattern pairs x 4 cells x 5 fractions x "
+         "replace_all).",
+    note="Level 'other': central frame/count clauses are bounded. Assumes random.sample and round contracts.",
+    technique='contract-based deductive verification of the selection block (own VC generator, z3) + bounded planted-structure replacement')
+CLAIMS['C05'] = dict(
+    category='proof',
+    text="The placement statements of the match loop (copy, q.apply, translate, wrap) and the two pattern translations at the top of "
+         "replace_pattern_in_structure are executed symbolically for one arbitrary replacement atom, an arbitrary linear map as rotation "
+         "and an arbitrary invertible 3x3 cell: proved that the unwrapped position is q(R_j - S_0) + p_0, that its deviation from the ideal "
+         "rigid image equals the deviation of matched atom 0 (bounded by atol through C01), that the wrapped position is the image of the "
+         "fractional coordinates reduced modulo 1, hence differs from the unwrapped one by an integer lattice combination and lies in the "
+         "cell -- for any cell shape (the pre-fix diag-modulo code is refuted and replays on a tilted cell). Joint rigid-motion invariance "
+         "and boundary-straddling placements are bounded (80 cases quick).",
+    note="Assumes A2 (reals), row-wise numpy arithmetic, linearity of Rotation.apply, x @ inv(C) = fractional coordinates (f @ C = x). "
+         "Joint-motion invariance is checked only where the matched frame is determined (non-collinear search pattern or on-axis "
+         "replacement atoms): for a collinear search pattern with off-axis replacement atoms the azimuth is undetermined by the match.",
+    technique='contract-based deductive verification over reals (block contracts, z3 nonlinear arithmetic) + bounded placement checks')
+CLAIMS['C07'] = dict(
+    category='proof',
+    text="The overlap test of the match loop is verified as a block contract with sets as characteristic predicates: the block exits "
+         "normally only if the running deletion set and this match's deletion set (matched atoms minus retained atoms) are disjoint or "
+         "the caller asked to ignore, and then to_delete grows by exactly that set; it raises AtomsShouldNotBeDeletedTwice exactly when "
+         "they overlap and ignoring was not requested. An inductive lemma lifts this to the whole loop (every atom is in at most one "
+         "deletion set). That the empty-replacement branch cannot raise and that one bulk delete of list(set) is performed are read from the "
+         "same AST. An exhaustive grid of sharing combinations runs on the real code.",
+    note="Assumes Python set semantics; which matches are found (and therefore overlap) is the search's business (C01/C02).",
+    technique='contract-based deductive verification (block contract over set predicates + inductive lemma, z3) + exhaustive grid')
+CLAIMS['C08'] = dict(
+    category='other',
+    text="find_unchanged_atom_pairs(P, P) is proved to be the identity map for patterns of any size without coincident same-element atoms "
+         "(both loops cut at invariants, early exit by break handled); with the contracts of C07/C10/C11 an identity map means no atom is "
+         "appended and nothing is deleted. The no-op conclusion on whole structures, A->B->A reversibility and 'second search finds none' "
+         "are only checked with a stated bound on the real code (planted structures; UiO-66 files in thorough).",
+    note="Level 'other': reversibility rests on completeness of the search (bounded). norm() uninterpreted with norm(0)=0.",
+    technique='contract-based deductive verification of the shared-atom map (loop invariants, z3) + bounded self-replacement / A-B-A workflows')
